@@ -156,7 +156,6 @@ Export ==
                     openOptions |-> <<"WRITE", "CREATE", "APPEND">>]).exitValue = 0
     ELSE TRUE
 
-\* deliberately false (self-test of non-vacuity): BFGS with memory 1 does not keep all secant equations
-Bogus ==
-  (Quad /\ inst.solver = "bfgs" /\ ExactLS) => \A j \in 1..Len(st.pairs) : HNow(st.pairs[j].y) = st.pairs[j].s
+\* deliberately false (self-test of non-vacuity): steepest descent with exact line search is NOT exact after dim steps
+Bogus == (Quad /\ inst.solver = "sd" /\ ExactLS /\ k >= nn) => st.x = PP.sol
 =============================================================================
